@@ -61,14 +61,16 @@ static size_t value_size(int type, int tlen) {
 }
 
 static char* field(char* s, int k) {            /* k-th ':'-separated field (0-based), destructive-free copy */
-    static char buf[8][1 << 20];
+    static char* buf[8];                        /* slots grow to the longest field seen (value dumps of long columns) */
+    static size_t cap[8];
     static int slot = 0;
     const char* p = s;
     for (int i = 0; i < k; i++) { p = strchr(p, ':'); if (!p) return NULL; p++; }
     const char* e = strchr(p, ':');
     size_t n = e ? (size_t)(e - p) : strlen(p);
-    char* out = buf[slot]; slot = (slot + 1) % 8;
-    if (n >= sizeof(buf[0])) n = sizeof(buf[0]) - 1;
+    int sl = slot; slot = (slot + 1) % 8;
+    if (n + 1 > cap[sl]) { cap[sl] = n + 1 + (n >> 2) + 64; buf[sl] = (char*)realloc(buf[sl], cap[sl]); }
+    char* out = buf[sl];
     memcpy(out, p, n); out[n] = 0;
     return out;
 }
